@@ -6,12 +6,12 @@ PROP = dict(
     required_theorems=["C24_void_lawful", "C24_bool_lawful", "C24_int_lawful", "C24_float_lawful", "C24_string_lawful",
                        "C24_string_is_lexicographic", "C24_tuple2_lawful", "C24_tuple3_lawful", "C24_tuple4_lawful",
                        "C24_tuple_lt_is_lexicographic", "C24_array_equal_spec", "C24_array_equal_lawful",
-                       "C24_ne_is_negation", "C24_order_laws", "C24_hash_congr_scalars", "C24_hash_congr_compound", "C24_string_hash_loop"],
+                       "C24_ne_is_negation", "C24_order_laws", "C24_hash_congr_scalars", "C24_hash_congr_compound", "C24_string_hash_loop", "C24_bool_ge_old_counterexample"],
     harness_bin="c24",
     # the compared line contains the exact hash values, which the property does not fix (only "equal values hash
     # equally"); every property-relevant disagreement is caught with a concrete input by the Rust oracle and the laws
     mismatch_is_violation=False,
-    rule="EXHAUSTIVE: every ordered pair of values of bool, void, (bool,bool), (bool,void), (void,bool), (void,void), "
+    rule="EXHAUSTIVE (these domains only; about 37 % of the quick-tier cases): every ordered pair of values of bool, void, (bool,bool), (bool,void), (void,bool), (void,void), "
          "(bool,bool,bool), (bool,void,bool), (void,void,void), (bool,bool,bool,bool), (bool,void,void,bool), "
          "((bool,bool),bool), (bool,(bool,void)), array<bool> and array<void> up to length 3, array<(bool,bool)> up to 2, "
          "array<(bool,void)> up to 3, array<array<bool>>, (array<bool>,bool) (thorough: arrays one element longer); "
@@ -30,7 +30,10 @@ PROP = dict(
          "transitive <, equal => equal hash) are evaluated on the implementation's answers over all pairs and triples; "
          "distinct = distinct (type, a, b); non-trivial = compound type, or scalar pair whose answer has eq=0",
     nontrivial=lambda req, imp: req.split()[1][0] in "234A" or "eq=0" in imp,
-    exhaustive=lambda tier: True,
+    # False for the run as a whole: only the bool/void domains listed under EXHAUSTIVE in `rule` are enumerated
+    # completely (1672 of 4529 quick-tier cases, counted as domain:exhaustive in the histogram); ints, floats,
+    # strings and the compound types over them are sampled
+    exhaustive=lambda tier: False,
     trusted_base=COMMON_TB + [
         "the hand model Abra.PreludeCmp is a manual transliteration of modules/prelude.abra (Equal/Ord/Hash for bool, void, "
         "tuples, arrays; hash_combine; FNV-1a) — tied by correspondence on exhaustive small domains; the stronger tie "
@@ -41,7 +44,7 @@ PROP = dict(
     ],
     assumptions=[
         "models the repaired bool `>=` (D5, landed in /repo af122a6)",
-        "array<void> values are assumed to be usable like any other array (the VM currently faults on element access in a loop; reported)",
+        "array<void> values are usable like any other array (the element-access fault D34 was fixed in /repo 900b818; non-empty array<void> pairs are ordinary exhaustive cases)",
     ],
     design_ref="DESIGN.md §6 C24",
     level_text="Theorems for all values: LawfulOrd (== an equivalence, exactly one of < == >, < transitive, > / <= / >= "
